@@ -4,6 +4,10 @@ cache protocol that the theorems of Props/C15.lean rest on (`Pyr.Cache.Proto`):
  * config/views.py  add_view.register : `self.registry._clear_view_lookup_cache()` is an unconditional top-level
                     statement of `register` (clears), it is the LAST statement and every `register_view(...)`
                     call precedes it, with no `return` in between (swapLast: modify BEFORE swap)
+ * config/views.py  add_view.register_view : in the multiview branch (`else` of `if not want_multiview`) the
+                    `registerAdapter(multiview, …, IMultiView, …)` call precedes the `for view_type in (IView,
+                    ISecuredView): adapters.unregister(…)` loop (multiviewFirst: a concurrent lookup never finds the
+                    triad empty; commit 7ef5d71)
  * registry.py      Registry._clear_view_lookup_cache : the body is `self._view_lookup_cache = {}` — a NEW dict
                     (freshDict), not an in-place `.clear()`; Registry.__init__ makes `_lock` a threading.Lock
  * config/__init__.py  the fallback `_clear_view_lookup_cache` closure also assigns a new dict
@@ -98,6 +102,27 @@ def facts(src_root):
         rvf = _find(vt, ['ViewsConfiguratorMixin', 'add_view', 'register_view'])
         if rvf is None or any(_is_clear_call(n) for n in ast.walk(rvf)):
             P.append('register_view missing or clears the cache itself')
+        # the multiview branch: register IMultiView first, then unregister IView / ISecuredView
+        out['multiviewFirst'] = None
+        if rvf is not None:
+            br = [n for n in ast.walk(rvf) if isinstance(n, ast.If) and ast.unparse(n.test) == 'not want_multiview' and n.orelse]
+            if len(br) != 1:
+                P.append('register_view: no `if not want_multiview: … else: …`')
+            else:
+                body = br[0].orelse
+                reg_i = [i for i, st in enumerate(body) if isinstance(st, ast.Expr) and isinstance(st.value, ast.Call)
+                         and isinstance(st.value.func, ast.Attribute) and st.value.func.attr == 'registerAdapter'
+                         and any(isinstance(a, ast.Name) and a.id == 'IMultiView' for a in st.value.args)]
+                unreg_i = [i for i, st in enumerate(body) if isinstance(st, ast.For)
+                           and any(isinstance(n, ast.Call) and isinstance(n.func, ast.Attribute) and n.func.attr == 'unregister'
+                                   for n in ast.walk(st))
+                           and ast.unparse(st.iter).replace(' ', '') == '(IView,ISecuredView)']
+                other_unreg = [n for i, st in enumerate(body) if i not in unreg_i for n in ast.walk(st)
+                               if isinstance(n, ast.Call) and isinstance(n.func, ast.Attribute) and n.func.attr in ('unregister', 'unregisterAdapter')]
+                if len(reg_i) != 1 or len(unreg_i) != 1 or other_unreg:
+                    P.append('register_view: the multiview branch does not have one registerAdapter(IMultiView) and one unregister loop')
+                else:
+                    out['multiviewFirst'] = reg_i[0] < unreg_i[0]
 
     # ---- Registry._clear_view_lookup_cache -------------------------------------------------------------
     def fresh_of(fn, owner):
@@ -262,12 +287,23 @@ def facts(src_root):
             for k in ('writeUnderLock', 'probeBeforeScan', 'scanInLoop', 'returnsLocal'):
                 if not out[k]:
                     P.append('_find_views: %s does not hold' % k)
-    for k in ('clears', 'swapLast', 'freshDict', 'singleRead', 'cacheEmpty'):
+    # the default view types scanned for a triad: IMultiView last (so the single view is read before the multiview)
+    out['multiViewScannedLast'] = None
+    if fv is not None:
+        dv = [n for n in ast.walk(fv) if isinstance(n, ast.Assign) and len(n.targets) == 1 and isinstance(n.targets[0], ast.Name)
+              and n.targets[0].id == 'view_types' and isinstance(n.value, ast.Tuple)]
+        if len(dv) == 1 and all(isinstance(e, ast.Name) for e in dv[0].value.elts) and dv[0].value.elts:
+            names = [e.id for e in dv[0].value.elts]
+            out['multiViewScannedLast'] = names[-1] == 'IMultiView' and names.count('IMultiView') == 1
+        else:
+            P.append('_find_views: default view_types is not a tuple of names')
+    out.setdefault('multiviewFirst', None)
+    for k in ('clears', 'swapLast', 'freshDict', 'singleRead', 'cacheEmpty', 'multiviewFirst', 'multiViewScannedLast'):
         if out[k] is None:
             P.append('%s could not be determined' % k)
     out['recognised'] = not P
     summary.clear()
-    summary.update({k: out[k] for k in ('recognised', 'clears', 'swapLast', 'freshDict', 'singleRead', 'cacheEmpty', 'writeUnderLock', 'keyFields', 'scanInputs', 'keyCoversScan', 'problems')})
+    summary.update({k: out[k] for k in ('recognised', 'clears', 'swapLast', 'freshDict', 'singleRead', 'cacheEmpty', 'writeUnderLock', 'keyFields', 'scanInputs', 'keyCoversScan', 'multiviewFirst', 'multiViewScannedLast', 'problems')})
     return out
 
 
@@ -299,6 +335,10 @@ def generate(src_root):
          '/-- … as its last statement, after every `register_view(...)` call, no `return` before it -/',
          'def swapLast : Bool := ' + _b(f['swapLast'], False),
          'def registerViewCalls : Nat := %d' % f['registerViewCalls'],
+         '/-- `register_view`, multiview branch: `registerAdapter(…IMultiView…)` precedes the unregister loop -/',
+         'def multiviewFirst : Bool := ' + _b(f['multiviewFirst'], False),
+         '/-- the default `view_types` of `_find_views` end with `IMultiView` -/',
+         'def multiViewScannedLast : Bool := ' + _b(f['multiViewScannedLast'], False),
          '/-- `Registry._clear_view_lookup_cache` is `self._view_lookup_cache = {}` (a new dict object) -/',
          'def freshDict : Bool := ' + _b(f['freshDict'], False),
          'def fallbackFreshDict : Bool := ' + _b(f['fallbackFreshDict'], False),
